@@ -91,12 +91,16 @@ func (lc *LocalClient) AddVersion(v Version, deps []RequirementVersion) {
 	for i, w := range versions {
 		if w.VersionKey == v.VersionKey {
 			existed = true
-			versions[i] = w
+			versions[i] = v
 		}
 	}
 	// Otherwise insert and sort.
 	if !existed {
 		versions = append(versions, v)
+		SortVersions(versions)
+	}
+	if existed {
+		// The new attributes can change the order (npm's "latest" tag).
 		SortVersions(versions)
 	}
 	lc.PackageVersions[v.PackageKey] = versions
